@@ -90,6 +90,10 @@ def make_data(kind, rng, variant=0):
         k = n // 2 if variant % 3 != 1 else n // 3          # variant 1: two groups of different sizes
         X = numpy.vstack([r.randn(k, d) + 3, r.randn(n - k, d) - 3])
         return X, None, None
+    if kind == "clusw":      # the same groups with a constant float sample weight (every row counts 2.5 times)
+        k = n // 2 if variant % 3 != 1 else n // 3
+        X = numpy.vstack([r.randn(k, d) + 3, r.randn(n - k, d) - 3])
+        return X, None, numpy.full(n, 2.5)
     if kind == "clus2":
         X = numpy.vstack([r.randn(n // 2, 2) + 3, r.randn(n - n // 2, 2) - 3])
         return X, None, None
@@ -192,6 +196,9 @@ def build_menu():
     E.append(Entry("KMeansL1L2[L1]", "KMeansL1L2",
                    lambda inner=None: M.KMeansL1L2(2, norm="L1", random_state=4, n_init=2),
                    "clus", ["predict", "transform"]))
+    E.append(Entry("KMeansL1L2[L1,constant weights]", "KMeansL1L2",
+                   lambda inner=None: M.KMeansL1L2(2, norm="L1", random_state=4, n_init=2),
+                   "clusw", ["predict", "transform"]))
     E.append(Entry("KMeansL1L2[L1,init-array]", "KMeansL1L2",
                    lambda inner=None: M.KMeansL1L2(2, norm="L1", n_init=3, random_state=4,
                                                    init=numpy.array([[2.5, 2.5], [-2.5, -2.5]])),
@@ -276,6 +283,13 @@ def build_menu():
     E.append(Entry("PiecewiseClassifier[random_state=0]", "PiecewiseClassifier",
                    lambda inner=None: M.PiecewiseClassifier("bins", estimator=LogisticRegression(), random_state=0),
                    "clf3", ["predict", "predict_proba"]))
+    E.append(Entry("PiecewiseClassifier[random_state=numpy.int64]", "PiecewiseClassifier",     # a seed taken from an array
+                   lambda inner=None: M.PiecewiseClassifier("bins", estimator=LogisticRegression(),
+                                                            random_state=numpy.int64(7)),
+                   "clf3", ["predict", "predict_proba"]))
+    E.append(Entry("PermutationReciprocalTransformer[random_state=numpy.int32]", "PermutationReciprocalTransformer",
+                   lambda inner=None: M.PermutationReciprocalTransformer(random_state=numpy.int32(5)),
+                   "labels", ["transform_xy"]))
     E.append(Entry("TransformedTargetRegressor2", "TransformedTargetRegressor2",
                    lambda inner=None: M.TransformedTargetRegressor2(reg(inner), "log"),
                    "target", ["predict"], "reg"))
@@ -333,6 +347,12 @@ def call_fit(est, X, y, w):
     if X is None:                      # time series: fit(X=None, y)
         return est.fit(None, y)
     if y is None:
+        if w is not None:
+            try:
+                return est.fit(X, sample_weight=w)
+            except TypeError as e:
+                if "sample_weight" not in str(e):
+                    raise
         return est.fit(X)
     if w is not None:
         try:
